@@ -8,16 +8,16 @@ namespace Petl.Snapshot
 open Petl.Gen
 
 def expectedC10 : List (String × String) := [
-  ("file:comparison.py", "17971f67ee946013"),
+  ("file:comparison.py", "c46d05a1308c92ce"),
   ("file:config.py", "142bde514c82c29d"),
-  ("file:transform/dedup.py", "00c85272c501507a"),
+  ("file:transform/dedup.py", "bd5f47cbc6d0c73d"),
   ("file:transform/sorts.py", "137f7e8a70e043fe"),
   ("file:util/base.py", "771a68108eeb730d"),
-  ("transform.dedup.DistinctView", "0efc0b2939e279f2"),
+  ("transform.dedup.DistinctView", "93824747ea188389"),
   ("transform.dedup.isunique", "ae424b2c66465559"),
-  ("transform.dedup.iterconflicts", "936e44b09579a4d3"),
-  ("transform.dedup.iterduplicates", "4e367d11e5b90cbe"),
-  ("transform.dedup.iterunique", "6972c806451165ee")
+  ("transform.dedup.iterconflicts", "a8099413abafefa1"),
+  ("transform.dedup.iterduplicates", "b089397d38c1d73c"),
+  ("transform.dedup.iterunique", "3a3a4a7083f76d63")
 ]
 
 /-- every function or class the model of C10 mirrors still has the body it was validated against -/
